@@ -400,11 +400,19 @@ async fn run(plan: &SwarmPlan, cx: &mut Cx, big_skew: bool) -> Res {
                 let Some(nd) = nodes[i].node.as_ref() else { continue };
                 let klen = (*klen).clamp(1, 5) as u32;
                 let space = 6u32.pow(klen);
+                let mut bulk_acked: Vec<Ent> = Vec::new();
                 for j in 0..*count as u32 {
                     let mut v = (*first as u32 + j) % space;
                     let k: Vec<u8> = (0..klen).map(|_| { let d = v % 6; v /= 6; crate::world::ALPHABET[d as usize] }).collect();
-                    let (hash, len) = content(1 + (j % 3) as u8);
-                    let _ = nd.handle.insert_local(ns, w.author_id(*a), k.into(), hash, len).await;
+                    let c = 1 + (j % 3) as u8;
+                    let (hash, len) = content(c);
+                    if nd.handle.insert_local(ns, w.author_id(*a), k.clone().into(), hash, len).await.is_ok() {
+                        bulk_acked.push(Ent { d: 0, a: *a, k, ts: nodes[i].clock, c });
+                    }
+                }
+                for e in bulk_acked {
+                    written.insert(postcard::to_stdvec(&e.signed()).unwrap());
+                    nodes[i].acked.push(e);
                 }
                 pump_events!();
                 let lost = net.len() - before;
